@@ -960,6 +960,11 @@ func onlyUse(p *Program, g *ssa.Function, mc *ssa.MakeClosure) bool {
 
 func checkBounds(p *Program, r *Report) {
 	total, okN := 0, 0
+	if os.Getenv("RSA_DEBUG") == "22" {
+		for _, l := range nonByteIndexing(p) {
+			fmt.Fprintln(os.Stderr, l)
+		}
+	}
 	work := boundsFunctions(p)
 	done := map[string]bool{}
 	level := map[string]int{}
@@ -1399,4 +1404,52 @@ func checkInflateSlack(p *Program, r *Report, reach map[*ssa.Function]bool) {
 		}
 	}
 	r.floor("INFLATE-SLACK", n, 1, "successful inflate paths relating the limit to the required total")
+}
+
+// nonByteIndexing lists the index and slice expressions over other element
+// types than bytes in the functions reachable from the read API (RSA_DEBUG=22).
+func nonByteIndexing(p *Program) []string {
+	cg := buildCallGraph(p)
+	reach := cg.reachable(hostileRoots(p, cg))
+	var res []string
+	for f := range reach {
+		for _, b := range f.Blocks {
+			for _, ins := range b.Instrs {
+				var x ssa.Value
+				switch v := ins.(type) {
+				case *ssa.IndexAddr:
+					x = v.X
+				case *ssa.Index:
+					x = v.X
+				case *ssa.Slice:
+					x = v.X
+				}
+				if x == nil {
+					continue
+				}
+				t := x.Type().Underlying()
+				if pt, ok := t.(*types.Pointer); ok {
+					t = pt.Elem().Underlying()
+				}
+				isB := false
+				switch u := t.(type) {
+				case *types.Slice:
+					if bt, ok := u.Elem().Underlying().(*types.Basic); ok && bt.Kind() == types.Uint8 {
+						isB = true
+					}
+				case *types.Array:
+					if bt, ok := u.Elem().Underlying().(*types.Basic); ok && bt.Kind() == types.Uint8 {
+						isB = true
+					}
+				case *types.Basic:
+					isB = true
+				}
+				if !isB {
+					res = append(res, fmt.Sprintf("%s %s: %s over %s", p.pos(ins.Pos()), funcKey(f), ins.String(), x.Type()))
+				}
+			}
+		}
+	}
+	sort.Strings(res)
+	return res
 }
